@@ -128,6 +128,10 @@ fn build_proc(p: &Proc) -> libcnb_data::launch::Process {
     if let Some(d) = p.default {
         pb.default(d);
     }
+    if p.args.len() == 3 {
+        // the process builder is non-consuming as well: an intermediate build() changes nothing
+        let _ = pb.build();
+    }
     match &p.wd {
         None => {}
         Some(None) => {
@@ -161,6 +165,9 @@ enum LAct {
     Pn,
     Ln,
     Sn,
+    /// `build()` called on the builder mid-way (result discarded): the builders are documented as
+    /// non-consuming, later calls and a second `build()` see everything added so far
+    Build,
 }
 
 fn base_procs() -> Vec<Proc> {
@@ -178,7 +185,7 @@ fn launch_cases(out: &mut Out, depth: usize) {
     let procs = base_procs();
     let labels = [("k", "v"), ("io.x/y z", "")];
     let slices = [vec!["*.txt".to_string()], vec![]];
-    let acts: Vec<LAct> = (0..4).map(LAct::P).chain((0..2).map(LAct::L)).chain((0..2).map(LAct::S)).chain([LAct::Pn, LAct::Ln, LAct::Sn]).collect();
+    let acts: Vec<LAct> = (0..4).map(LAct::P).chain((0..2).map(LAct::L)).chain((0..2).map(LAct::S)).chain([LAct::Pn, LAct::Ln, LAct::Sn, LAct::Build]).collect();
     // all builder call sequences up to `depth`
     let mut seqs: Vec<Vec<LAct>> = vec![vec![]];
     let mut level: Vec<Vec<LAct>> = vec![vec![]];
@@ -225,6 +232,10 @@ fn launch_cases(out: &mut Out, depth: usize) {
                     lb.labels(labels.iter().map(|(k, v)| Label { key: (*k).into(), value: (*v).into() }));
                     il.extend(labels.iter().map(|(k, v)| json!([k, v])));
                     trace.push("labels[#0,#1]".into());
+                }
+                LAct::Build => {
+                    let _ = lb.build();
+                    trace.push("build()".into());
                 }
                 LAct::Sn => {
                     lb.slices(slices.iter().map(|g| Slice { path_globs: g.clone() }));
